@@ -37,5 +37,8 @@ def run(ctx):
 
 def replay(obj):
     case = obj["case"]
+    if obj.get("stream") == "c12policy":
+        r, done, cmds = dbgsem.policy_case(case["text"], case["policy"], case.get("break"))
+        return None if r in (None, "skip") else r
     r, done = dbgsem.c12_case(case["text"], case["opts"], case["cmds"])
     return None if r in (None, "skip") else r
